@@ -66,6 +66,7 @@ class Context:
         self.rules: dict[str, str] = {}
         self.extra: dict = {}
         self.minima: list[tuple[str, int, int]] = []
+        self.min_failures: list[str] = []
 
     # ---------------------------------------------------------------- helpers
 
@@ -119,10 +120,11 @@ class Context:
         """Instance-count floor: below it the rule would pass vacuously."""
         self.minima.append((what, found, minimum))
         if found < minimum:
-            raise AnalysisError(
-                f"{self.prop}: rule instance count for '{what}' is {found}, below the "
-                f"confirmed minimum {minimum} (the rule would pass vacuously)"
-            )
+            # deferred: a tree that lost rule instances usually also violates an
+            # obligation, and that report must not be masked by the analysis error
+            self.min_failures.append(
+                f"rule instance count for '{what}' is {found}, below the confirmed "
+                f"minimum {minimum} (the rule would pass vacuously)")
 
 
 # ------------------------------------------------------------------ known findings
@@ -249,6 +251,12 @@ def finish(ctx: Context, t0: float, seed: int, selftest: dict | None = None) -> 
           f"violations={len(violations)} known={len(known_hits)} "
           f"functions={len(ctx.analysed_functions)} wall={ev['wall_s']}s")
     if violations:
+        for m in ctx.min_failures:
+            print(f"(also: {m})")
         print(f"VIOLATION property={ctx.prop} replay={replay}")
         return 1
+    if ctx.min_failures:
+        for m in ctx.min_failures:
+            print(f"ANALYSIS-ERROR property={ctx.prop} {m}")
+        return 2
     return 0
